@@ -35,6 +35,9 @@ import urllib.request
 import warnings
 
 PKG_ROOT = "/zcsim-pkg"
+# packages whose module has no __loader__: ZConfig looks for their component
+# on the file system (real, committed files)
+NL_ROOT = os.path.join(os.path.dirname(os.path.abspath(__file__)), "nlpkg")
 
 CURRENT = None      # the installed SimWorld, or None
 
@@ -236,6 +239,12 @@ class SimFileHandler(urllib.request.BaseHandler):
             raise urllib.error.URLError(FileNotFoundError(
                 errno.ENOENT, "No such file or directory", url))
         text = w.store.get(url)
+        if text is None and url.startswith("file:"):
+            path = urllib.request.url2pathname(
+                urllib.parse.urlsplit(url).path)
+            if path.startswith(NL_ROOT + os.sep) and os.path.isfile(path):
+                with open(path, "rb") as fh:
+                    text = fh.read()
         if text is None:
             w.probe("open-missing")
             raise urllib.error.URLError(FileNotFoundError(
@@ -390,6 +399,13 @@ class SimPkgLoader(importlib.abc.Loader):
         if f is not None:
             w.fired(f)
             raise ImportError("simulated import failure of %s" % self.name)
+        if (w.packages.get(self.name) or {}).get("noloader"):
+            # a module object without the import system's attributes (made
+            # by hand by an embedding application, a lazy proxy ...)
+            try:
+                del module.__loader__
+            except AttributeError:       # pragma: no cover
+                pass
         if (w.packages.get(self.name) or {}).get("datatypes"):
             # a plain module that provides datatype functions (the same
             # callables as zcsim.simdt, under another dotted name)
@@ -431,7 +447,8 @@ class SimPkgFinder(importlib.abc.MetaPathFinder):
             fullname, SimPkgLoader(self.world, fullname), is_package=is_pkg)
         if is_pkg:
             spec.submodule_search_locations = [
-                "%s/%s" % (PKG_ROOT, fullname.replace(".", "/"))]
+                "%s/%s" % (NL_ROOT if spec_info.get("noloader") else PKG_ROOT,
+                           fullname.replace(".", "/"))]
         return spec
 
 
@@ -466,6 +483,8 @@ class SimWorld:
     # -- trace -------------------------------------------------------------
 
     def norm(self, s):
+        if isinstance(s, str) and NL_ROOT in s:
+            s = s.replace(NL_ROOT, "$NLPKG")
         if self.scratch and isinstance(s, str):
             return s.replace(self.scratch, "$SCRATCH")
         return s
